@@ -613,6 +613,13 @@ class Fn:
                 try:
                     av = self.expr(a_)
                 except Unsupported:
+                    if label in self.spec.get("logged_calls", []):
+                        # an argument outside the subset (e.g. `&c->request') is not recorded; the path still exists
+                        # (and is returned unchanged) because the statement pre-pass counts it among the stored ones
+                        an = "arg%d_%s" % (ai, label)
+                        self.add_input(Var(an, "arr"))
+                        if an not in self.written:
+                            self.written.append(an)
                     continue
                 if label in self.spec.get("logged_calls", []):
                     an = "arg%d_%s" % (ai, label)
